@@ -16,7 +16,7 @@ import (
 // mirrored branch): the collapsed border of the last column of a table is then taken from the cell's own zero border.
 func c13TestedSide(c *core.Check) {
 	p := c.Prog
-	r := c.Rule("R14", "the edge tested is the edge used: in html/layout, a branch guarded by a comparison of a Left/Right/Top/Bottom field of a box with zero does not read the same field of the opposite side unless it also reads the tested one", 3)
+	r := c.Rule("R14", "the edge tested is the edge used: in html/layout, a branch guarded by a comparison of a Left/Right/Top/Bottom field of a box with zero does not read the same field of the opposite side unless it also reads the tested one", 1)
 	opposite := map[string]string{"Left": "Right", "Right": "Left", "Top": "Bottom", "Bottom": "Top"}
 	sideOf := func(name string) (stem, side string) {
 		for s := range opposite {
